@@ -11,6 +11,14 @@ inductive Res where
   | err (code : Nat)
 deriving Repr, DecidableEq
 
+/-- what an out-parameter the callee never stored through still holds: the value the caller (the C harness)
+initialised it with, `0xDEADBEEFDEADBEEF` truncated to the pointee's width -/
+def unwritten (w : Nat) : Nat := 0xDEADBEEFDEADBEEF % 2^w
+
+/-- stand-in for the indeterminate value of a local that is read before it was assigned (no theorem may depend on
+it; a fixed odd pattern rather than 0, so that an accidental `0` cannot make a wrong path look right) -/
+def indeterminate (w : Nat) : Nat := 0x5A5A5A5A5A5A5A5B % 2^w
+
 /-- index of the highest set bit of `x` below bit `w`, as a count of leading zeros; `w` for `x = 0`
 (the builtin is undefined there; every caller tests for 0 first) -/
 def clzAux (w : Nat) (x : Nat) : Nat → Nat
